@@ -29,6 +29,9 @@ CLAIMED['C01'] = ('other', 'bounded symbolic execution of GridWorld.functional_s
 CLAIMED['C11'] = ('other', 'bounded symbolic execution with every rng draw a symbolic variable (numpy Generator contract only): on every path the final obstacle placement is one of the outcomes of the documented sequential rule and nothing else changes; teleport lands on a same-coloured partner or does not move. The possibility claims are decided by feasibility: the outcomes collected over all explored (solver-satisfiable) paths must equal the oracle set, and a missing outcome is confirmed by exhausting scripted draws on the real function',
                   'trusts z3, the proxy layer, LazyRows and the SymRng contract stub; no distributional claim; layouts beyond the bounds are outside', 'DESIGN.md §5 C11')
 
+CLAIMED['C12'] = ('other', 'bounded symbolic execution with reward parameters as symbolic reals: each built-in reward/termination component equals an oracle restating its docstring for ALL parameter values (decided in linear real arithmetic) on next states produced by the real dynamics and on arbitrary next states; reduce_sum/reduce_any/reduce_all are decided parametrically with stub components returning fresh symbolic values; functional_step is shown to evaluate reward and termination on (state, action, returned next state), so the exit reward is paid exactly when exit termination fires',
+                  'trusts z3, the proxy layer, the stubs; distance rewards are checked under their documented uniqueness precondition on the stated structured grids; reals stand for floats (no rounding claim)', 'DESIGN.md §5 C12')
+
 NOT_APPLICABLE = {
     'C19': 'floating-point trigonometric ray kernel (sin/cos/arctan2 via libm/numpy, round-to-nearest of accumulated float steps): no SMT theory for the transcendental part, the only FP-expressible lemma timed out (300 s) on z3 and cvc5, and the remaining inputs form a small finite domain a solver would merely enumerate; see DESIGN.md §5 C19',
 }
